@@ -118,6 +118,13 @@ def main(argv=None):
                 pool.terminate()
                 return 3
 
+    # a crashed case is re-run once, in this process, before it counts as a checker error: transient conditions
+    # (fork failing under memory pressure, a solver process dying) must not decide an exit code
+    for i, r in enumerate(results):
+        if r.get('status') == 'crash':
+            r2 = run.run_case_task(tasks[i])
+            r2['retried_after_crash'] = r.get('detail', '')[-400:]
+            results[i] = r2
     if os.environ.get('PYVC_TIMING'):
         for r in sorted(results, key=lambda r: -r.get('wall_s', 0))[:8]:
             print('TIMING %.1fs %s / %s (paths %s)' % (r.get('wall_s', 0), r['target'], r['case'], r.get('paths')))
